@@ -260,17 +260,17 @@ Proof.
 Qed.
 
 Lemma auth_fields_tail H a : digest_tail (auth_fields H a).
-Proof. destruct a; simpl; [left; reflexivity | right; eauto | right; eauto]. Qed.
-
-Lemma auth_pre_inj a b : auth_pre a = auth_pre b -> a = b.
-Proof. destruct a, b; simpl; intro E; try discriminate; auto; injection E; intros; subst; reflexivity. Qed.
+Proof. destruct a; simpl; [left; reflexivity | right; eauto ..]. Qed.
 
 Lemma auth_fields_inj H a b :
-  injective H -> guard_shift (auth_pre a) (auth_pre b) = false ->
+  injective H -> auth_collide a b = false ->
   auth_fields H a = auth_fields H b -> a = b.
 Proof.
-  intros Hinj G E. apply auth_pre_inj. apply no_boundary_shift; auto.
-  destruct a, b; simpl in *; try discriminate; auto; injection E as E; now apply Hinj in E.
+  intros Hinj G E.
+  assert (C : cat (auth_pre a) = cat (auth_pre b)).
+  { destruct a, b; simpl in *; try discriminate; auto; injection E as E; now apply Hinj in E. }
+  unfold auth_collide in G. rewrite C, String.eqb_refl in G. simpl in G.
+  apply negb_false_iff in G. now apply auth_eqb_eq.
 Qed.
 
 Definition texts (hs : list (string * tpl)) : alist := map (fun kt => (fst kt, tpl_text (snd kt))) hs.
@@ -309,7 +309,7 @@ Qed.
 Lemma ep_fields_inj fx H ho1 ho2 e1 e2 :
   injective H -> wf_ep e1 -> wf_ep e2 ->
   Permutation ho1 (map fst (e_headers e1)) -> Permutation ho2 (map fst (e_headers e2)) ->
-  guard_shift (auth_pre (e_auth e1)) (auth_pre (e_auth e2)) = false ->
+  auth_collide (e_auth e1) (e_auth e2) = false ->
   ep_fields fx H ho1 e1 = ep_fields fx H ho2 e2 -> e1 = e2.
 Proof.
   intros Hinj (S1 & U1 & W1) (S2 & U2 & W2) P1 P2 Ga E.
@@ -394,8 +394,8 @@ Lemma ep_hash_inj fx H a b :
   injective H -> wf_instb (st_inst a) = true -> wf_instb (st_inst b) = true ->
   orders_valid a -> orders_valid b ->
   (negb (ep_eqb (eff_ep (st_inst a)) (eff_ep (st_inst b))) &&
-   (guard_shift (ep_fields fx H (st_ho a) (eff_ep (st_inst a))) (ep_fields fx H (st_ho b) (eff_ep (st_inst b))) ||
-    guard_shift (auth_pre (e_auth (eff_ep (st_inst a)))) (auth_pre (e_auth (eff_ep (st_inst b)))))) = false ->
+   (collide (ep_fields fx H (st_ho a) (eff_ep (st_inst a))) (ep_fields fx H (st_ho b) (eff_ep (st_inst b))) ||
+    auth_collide (e_auth (eff_ep (st_inst a))) (e_auth (eff_ep (st_inst b))))) = false ->
   ep_hash fx H (st_ho a) (eff_ep (st_inst a)) = ep_hash fx H (st_ho b) (eff_ep (st_inst b)) ->
   eff_ep (st_inst a) = eff_ep (st_inst b).
 Proof.
@@ -403,7 +403,7 @@ Proof.
   apply andb_false_iff in G as [G|G].
   - apply negb_false_iff in G. now apply ep_eqb_eq.
   - apply orb_false_iff in G as [Ge Ga]. unfold ep_hash, digest in E. apply Hinj in E.
-    apply (no_boundary_shift _ _ Ge) in E.
+    apply (collide_inj _ _ Ge) in E.
     destruct (wf_inst_ep _ Wa) as [Wea _]. destruct (wf_inst_ep _ Wb) as [Web _].
     eapply ep_fields_inj; eauto.
 Qed.
@@ -445,7 +445,7 @@ Proof.
   apply orb_false_iff in G as [Gk Ge].
   unfold opt_fields in Gk. rewrite Ea, Eb, Fa, Fb in Gk.
   assert (Ef : fa = fb).
-  { apply no_boundary_shift; auto. apply Hinj. apply hex_inj. congruence. }
+  { apply collide_inj; auto. apply Hinj. apply hex_inj. congruence. }
   subst fb.
   pose proof (key_fields_length _ _ _ _ _ _ _ Fa) as La.
   pose proof (key_fields_length _ _ _ _ _ _ _ Fb) as Lb.
@@ -497,7 +497,10 @@ Lemma alist_eqb_refl m : alist_eqb m m = true.
 Proof. apply list_eqb_refl, kv_eqb_refl. Qed.
 
 Lemma auth_eqb_refl a : auth_eqb a a = true.
-Proof. destruct a; simpl; auto; now rewrite !String.eqb_refl. Qed.
+Proof.
+  destruct a; simpl; auto; rewrite ?String.eqb_refl; simpl; auto.
+  apply list_eqb_refl. apply String.eqb_refl.
+Qed.
 
 Lemma strs_eqb_refl' l : strs_eqb l l = true.
 Proof. apply list_eqb_refl. apply String.eqb_refl. Qed.
@@ -789,6 +792,40 @@ Proof. intros H w h Hi W. apply cache_transparent; auto. Qed.
 
 (* ------------------------------------------------------------------ the hypotheses are satisfiable *)
 
+(** the structural over-approximation of the guard of C11-F4 (computable without knowing SHA-256) *)
+Definition p_F4_shift (fx : fixes) (H : string -> string) (a b : step) : bool :=
+  both (fun s => enabled (st_inst s)) a b &&
+  (guard_shift (opt_fields fx H a) (opt_fields fx H b) ||
+   (negb (ep_eqb (eff_ep (st_inst a)) (eff_ep (st_inst b))) &&
+    (guard_shift (ep_fields fx H (st_ho a) (eff_ep (st_inst a))) (ep_fields fx H (st_ho b) (eff_ep (st_inst b))) ||
+     auth_collide (e_auth (eff_ep (st_inst a))) (e_auth (eff_ep (st_inst b)))))).
+
+Lemma collide_le_shift a b : collide a b = true -> guard_shift a b = true.
+Proof. apply collide_needs_shift. Qed.
+
+Lemma p_F4_in_shift fx H a b : p_F4 fx H a b = true -> p_F4_shift fx H a b = true.
+Proof.
+  unfold p_F4, p_F4_shift. intro P. apply andb_true_iff in P as [B P]. rewrite B. simpl.
+  apply orb_true_iff in P as [P|P].
+  - now rewrite (collide_le_shift _ _ P).
+  - apply andb_true_iff in P as [N P]. rewrite N. simpl. apply orb_true_iff in P as [P|P].
+    + rewrite (collide_le_shift _ _ P). now rewrite ?orb_true_r.
+    + rewrite P. now rewrite ?orb_true_r.
+Qed.
+
+Lemma exists_pair_mono {A} (f g : A -> A -> bool) :
+  (forall a b, f a b = true -> g a b = true) -> forall l, exists_pair g l = false -> exists_pair f l = false.
+Proof.
+  intros M l. induction l as [|x l IH]; [reflexivity|]. simpl. intro E.
+  apply orb_false_iff in E as [E1 E2]. rewrite (IH E2), orb_false_r.
+  clear IH E2. induction l as [|y l IH]; [reflexivity|]. simpl in *.
+  apply orb_false_iff in E1 as [Ey El]. apply orb_false_iff in Ey as [E3 E4].
+  rewrite (IH El), orb_false_r.
+  destruct (f x y) eqn:F1; [rewrite (M _ _ F1) in E3; discriminate|].
+  destruct (f y x) eqn:F2; [rewrite (M _ _ F2) in E4; discriminate|]. reflexivity.
+Qed.
+
+
 Definition w_ok : inst :=
   {| i_kind := KRemote; i_id := "ok";
      i_ep := {| e_url := [PLit "http://opa/r/authz"]; e_method := "";
@@ -822,6 +859,7 @@ Proof.
     + intros a b Ia Ib.
       repeat (destruct Ia as [<-|Ia]; [repeat (destruct Ib as [<-|Ib]; [intro E; try reflexivity; discriminate E|]); destruct Ib|]).
       destruct Ia.
-  - intros fx H L. destruct fx as [[] f2 f3]; cbv -[String.length Nat.eqb Nat.leb negb orb andb]; rewrite !L; reflexivity.
+  - intros fx H L. unfold g_F4. apply (exists_pair_mono _ (p_F4_shift fx H)); [apply p_F4_in_shift|].
+    destruct fx as [[] f2 f3]; cbv -[String.length Nat.eqb Nat.leb negb orb andb]; rewrite !L; reflexivity.
   - do 2 eexists. splits; try reflexivity. eexists. reflexivity.
 Qed.
